@@ -49,12 +49,27 @@ def stage_post(ctx, cases):
             ctx.disagreements.append(('post', {'step': c[0], 'prefix': c[1], 'tree': c[2]}, x if x[0] == 'ERR' else '<xml>', '<differs>'))
     return a
 
+def stage_unp(ctx, trees):
+    """trees: xml sx; the whole unparser (akn_text.xsl through libxslt) against Model/UnparseDoc.v"""
+    a = impl.pmap(impl.unparse_sx, trees, chunk=8)
+    b = model.run([['unp', t] for t in trees])
+    for t, x, y in zip(trees, a, b):
+        ctx.evaluations += 1; ctx.count('unp_cases')
+        if x != y:
+            ctx.disagreements.append(('unp', {'unparse_tree': t}, x if isinstance(x, list) else '<text>', y if isinstance(y, list) else '<text differs>'))
+    return a
+
 def post_cases(ctx, n, steps=('displaced', 'normalise', 'titles', 'all')):
     return [(ctx.rng.choice(steps), ctx.rng.choice(['', 'p']), xmlsx.norm_sx(gen.gen_post_tree(ctx.rng))) for _ in range(n)]
 
 def replay_stage(case):
     """re-run one recorded disagreement on both sides; returns True if they agree"""
-    if 'tree' in case and 'step' in case:
+    if 'unparse_tree' in case:
+        x = impl.unparse_sx(case['unparse_tree']); y = model.run([['unp', case['unparse_tree']]])[0]
+        if x != y and isinstance(x, str) and isinstance(y, str):
+            i = next((i for i in range(min(len(x), len(y))) if x[i] != y[i]), min(len(x), len(y)))
+            print('first difference at', i, repr(x[max(0, i - 60):i + 40]), '|', repr(y[max(0, i - 60):i + 40]))
+    elif 'tree' in case and 'step' in case:
         c = (case['step'], case['prefix'], case['tree'])
         x = impl.post_step(c); y = norm_model_xml(model.run([['post', *c]])[0])
     elif 'uri' in case:
